@@ -77,6 +77,8 @@ class Func:
         while stack:
             n = stack.pop()
             out.append(n)
+            if isinstance(n, (ast.FunctionDef, ast.AsyncFunctionDef, ast.Lambda, ast.ClassDef)):
+                continue   # a nested definition: visible as a node, its body belongs to the nested function
             for c in ast.iter_child_nodes(n):
                 if isinstance(c, (ast.FunctionDef, ast.AsyncFunctionDef, ast.Lambda, ast.ClassDef)):
                     out.append(c)  # the def node itself is visible, its body is not
